@@ -40,6 +40,7 @@ func (p *Pool) AcquireMessage(ctx context.Context) *Message {
 	}
 	p.currentMessagesInPool.Dec()
 	r.ctx = ctx
+	verifAcquire(p, r)
 	return r
 }
 
@@ -48,6 +49,7 @@ func (p *Pool) AcquireMessage(ctx context.Context) *Message {
 // It is forbidden accessing req and/or its' members after returning
 // it to Message pool.
 func (p *Pool) ReleaseMessage(req *Message) {
+	verifRelease(p, req)
 	for {
 		v := p.currentMessagesInPool.Load()
 		if v >= int64(p.maxNumMessages) {
